@@ -17,6 +17,7 @@ import (
 	"github.com/consensys/gnark-crypto/accumulator/merkletree"
 	_ "github.com/consensys/gnark-crypto/ecc/bn254/fr/poseidon2"
 	"github.com/consensys/gnark-crypto/field/koalabear"
+	kbposeidon2 "github.com/consensys/gnark-crypto/field/koalabear/poseidon2"
 	"github.com/consensys/gnark-crypto/field/koalabear/vortex"
 	gchash "github.com/consensys/gnark-crypto/hash"
 	_ "github.com/consensys/gnark-crypto/hash/all"
@@ -526,7 +527,24 @@ func vroot(l []vortex.Hash) vortex.Hash {
 	if len(l) == 1 {
 		return l[0]
 	}
-	return vortex.CompressPoseidon2(vroot(l[:len(l)/2]), vroot(l[len(l)/2:]))
+	return vcompress(vroot(l[:len(l)/2]), vroot(l[len(l)/2:]))
+}
+
+// vcompress: the node function as documented - the width-16 Poseidon2 permutation (6 full, 21 partial rounds; checked
+// against the dense-matrix specification by C14) of left || right, truncated to 8 elements. The model builds its own
+// permutation object and does not call the package's node function.
+var vperm = kbposeidon2.NewPermutation(16, 6, 21)
+
+func vcompress(a, b vortex.Hash) vortex.Hash {
+	var x [16]koalabear.Element
+	copy(x[:8], a[:])
+	copy(x[8:], b[:])
+	if err := vperm.Permutation(x[:]); err != nil {
+		panic(err)
+	}
+	var res vortex.Hash
+	copy(res[:], x[:8])
+	return res
 }
 func vpath(i int, l []vortex.Hash) []vortex.Hash {
 	if len(l) == 1 {
@@ -611,17 +629,21 @@ func vortexSome(r *vlib.Run, g string, n int, stride int) {
 		}
 		cpp := func() vortex.MerkleProof { return append(vortex.MerkleProof{}, proof...) }
 		one := koalabear.NewElement(1)
-		lf := padded[i]
-		lf[7].Add(&lf[7], &one)
-		tam("leaf-changed", cpp(), i, lf, wantRoot)
+		for limb := 0; limb < 8; limb++ { // every limb of the leaf and of every sibling is bound
+			lf := padded[i]
+			lf[limb].Add(&lf[limb], &one)
+			tam("leaf-changed", cpp(), i, lf, wantRoot)
+		}
 		rt := wantRoot
 		rt[0].Add(&rt[0], &one)
 		tam("root-changed", cpp(), i, padded[i], rt)
 		for k := range proof {
+			for limb := 0; limb < 8; limb++ {
+				p := cpp()
+				p[k][limb].Add(&p[k][limb], &one)
+				tam("sibling-changed", p, i, padded[i], wantRoot)
+			}
 			p := cpp()
-			p[k][k%8].Add(&p[k][k%8], &one)
-			tam("sibling-changed", p, i, padded[i], wantRoot)
-			p = cpp()
 			p = append(p[:k], p[k+1:]...)
 			tam("drop-element", p, i, padded[i], wantRoot)
 			p = cpp()
